@@ -123,7 +123,8 @@ Hex4(cs, i) == IF i + 3 <= Len(cs) /\ \A j \in i..(i+3) : IsHex(cs[j]) THEN Smal
 Unesc(cs, i, acc) ==
   IF i > Len(cs) THEN Val([k |-> "text", cp |-> acc])
   ELSE LET c == cs[i] IN
-  IF c # 92 THEN (IF c = 34 THEN Rej ELSE Unesc(cs, i + 1, Append(acc, c)))
+  \* a raw character must be an SCHAR: %x20-21 / %x23-5B / %x5D-7E / %x80-10FFFD
+  IF c # 92 THEN (IF c = 34 \/ c < 32 \/ c = 127 \/ c > 1114109 THEN Rej ELSE Unesc(cs, i + 1, Append(acc, c)))
   ELSE IF i + 1 > Len(cs) THEN Rej
   ELSE LET d == cs[i + 1] IN
        CASE d \in {34, 47, 92} -> Unesc(cs, i + 2, Append(acc, d))
